@@ -93,4 +93,3 @@ func modelString(v *Violation) string {
 	return s
 }
 
-func cmdCheck(args []string) int { return 2 }
